@@ -30,7 +30,7 @@ HANDLES = ['filename', 'connection', 'cursor', 'mkcurs']
 EXCS = sorted(probes.FAULT_TYPES)
 REQUIRED = (['handle:' + h for h in HANDLES] + ['fn:todb', 'fn:appenddb', 'commit:True', 'commit:False', 'fail:none', 'fail:header',
             'fail:first-row', 'fail:last-row', 'fail:exhaustion', 'rolled-back-load-left-previous-contents', 'commit=False-invisible-until-caller-commits',
-            'roundtrip-typed-cells', 'quoted-identifiers', 'sql-statements-traced', 'schema-qualified', 'fromdb-handle-kinds'] + ['exc:' + e for e in EXCS])
+            'long-load', 'roundtrip-typed-cells', 'quoted-identifiers', 'sql-statements-traced', 'schema-qualified', 'fromdb-handle-kinds'] + ['exc:' + e for e in EXCS])
 EXHAUSTIVE = {'quick': False, 'thorough': False}   # the enumerated families are complete within their bounds, but a seeded random family is judged too
 
 CELLS = [None, 0, 1, -5, 2 ** 40, 1.5, -0.25, '', 'a', "it's", 'say "hi"', 'é€漢', 'x;y', b'', b'\x00\xff', 'NULL', ' lead']
@@ -49,6 +49,15 @@ def cases(ctx):
                             exc = EXCS[count[0] % len(EXCS)] if fail is not None else None
                             yield {'fn': fn, 'handle': handle, 'commit': commit, 'prior': p, 'new': n, 'fail': fail, 'flavour': 'plain', 'exc': exc,
                                    'schema': 'aux' if count[0] % 5 == 0 else None}
+    # long loads (a driver-side or petl-side batching of the inserts must neither lose nor repeat a row, and a failure deep into the
+    # load still leaves nothing behind)
+    for fn in ('todb', 'appenddb'):
+        for handle in HANDLES:
+            for n in ctx.pick((1001, 2500), (999, 1000, 1001, 2000, 2001, 2500, 10007)):
+                for fail in (None, n - 2):
+                    count[0] += 1
+                    yield {'fn': fn, 'handle': handle, 'commit': True, 'prior': 2, 'new': n, 'fail': fail, 'flavour': 'plain',
+                           'exc': EXCS[count[0] % len(EXCS)] if fail is not None else None, 'schema': None}
     rng = ctx.rng('flavours')
     for i in range(ctx.pick(1500, 20000)):
         n = rng.randint(0, 4)
@@ -89,6 +98,8 @@ def judge(case, ctx):
     else:
         new = [(i, 'n%d' % i) for i in range(case['new'])]
     n = len(new)
+    if n > 1000:
+        ctx.seen('long-load')
     ctx.op('handle:' + handle)
     ctx.op('fn:' + fn)
     ctx.seen('commit:%s' % commit)
